@@ -44,14 +44,14 @@ theorem lazyPieces_render (t : Ty) : lazyPieces t.render = ([t.render], none) :=
   simpa [renderAll] using this
 
 /-- `marshal(vsig, [var], start)` for a signature holding one complete type, at an aligned offset. -/
-theorem marshalTop_single (one : List Char → PyVal → Nat → Fds → MRes) (t : Ty) (pv : PyVal) (start : Nat)
-    (fds : Fds) (hal : padLen (Spec.alignTable t.code) start = 0) :
+theorem marshalTop_single (A : AlignTable) (hA : PadOK A) (hpos : A.Pos) (one : List Char → PyVal → Nat → Fds → MRes) (t : Ty) (pv : PyVal) (start : Nat)
+    (fds : Fds) (hal : padLen (A t.code) start = 0) :
     marshalTop one t.render (.list [pv]) start fds =
       match one t.render pv start fds with
       | .ok (n, bs, fds1) => .ok (n, bs, fds1)
       | .error e => .error e := by
   unfold marshalTop
-  simp only [topItems, pyIter, lazyPieces_render, marshalSeq, head?_render, padLenOf_code, hal, Nat.add_zero]
+  simp only [topItems, pyIter, lazyPieces_render, marshalSeq, head?_render, hA, hal, Nat.add_zero]
   cases h : one t.render pv start fds with
   | error e => simp
   | ok r =>
@@ -68,9 +68,9 @@ theorem fdsArg_take_succ (lall : List PyVal) (k : Nat) (pv : PyVal) (h : lall[k]
     lall.take k ++ [pv] = lall.take (k + 1) := by
   rw [List.take_add_one, h]; rfl
 
-theorem marshalOne_scalar (lall : List PyVal) (le : Bool) (v : Val) (fd : Bool) (t : Ty) (pv : PyVal)
+theorem marshalOne_scalar (A : AlignTable) (hA : PadOK A) (hpos : A.Pos) (lall : List PyVal) (le : Bool) (v : Val) (fd : Bool) (t : Ty) (pv : PyVal)
     (k k' off : Nat) (bs : Bytes) (fuel : Nat) (hr : RepScalar lall v fd t pv k k')
-    (he : Spec.encode Spec.alignTable (endianOf le) t v off = some bs) (hf : 1 ≤ fuel) :
+    (he : Spec.encode A (endianOf le) t v off = some bs) (hf : 1 ≤ fuel) :
     marshalOne le fuel t.render pv off (fdsArg fd lall k) = .ok (bs.length, bs, fdsArg fd lall k') := by
   obtain ⟨f, rfl⟩ : ∃ f, fuel = f + 1 := ⟨fuel - 1, by omega⟩
   obtain ⟨c, rfl, hcase⟩ := hr
@@ -89,22 +89,22 @@ theorem marshalOne_scalar (lall : List PyVal) (le : Bool) (v : Val) (fd : Bool) 
     exact marshalOne_basic le f c v pv off _ bs hb he
 
 mutual
-theorem marshalOne_spec (lall : List PyVal) (le : Bool) :
+theorem marshalOne_spec (A : AlignTable) (hA : PadOK A) (hpos : A.Pos) (lall : List PyVal) (le : Bool) :
     ∀ (v : Val) (fd : Bool) (t : Ty) (pv : PyVal) (k k' off : Nat) (bs : Bytes) (fuel : Nat),
-      Rep lall v fd t pv k k' → Spec.encode Spec.alignTable (endianOf le) t v off = some bs → v.depth ≤ fuel →
+      Rep lall v fd t pv k k' → Spec.encode A (endianOf le) t v off = some bs → v.depth ≤ fuel →
       marshalOne le fuel t.render pv off (fdsArg fd lall k) = .ok (bs.length, bs, fdsArg fd lall k')
   | .int n, fd, t, pv, k, k', off, bs, fuel, hr, he, hf => by
     simp only [Rep] at hr; simp only [Val.depth] at hf
-    exact marshalOne_scalar lall le _ fd t pv k k' off bs fuel hr he hf
+    exact marshalOne_scalar A hA hpos lall le _ fd t pv k k' off bs fuel hr he hf
   | .bool b, fd, t, pv, k, k', off, bs, fuel, hr, he, hf => by
     simp only [Rep] at hr; simp only [Val.depth] at hf
-    exact marshalOne_scalar lall le _ fd t pv k k' off bs fuel hr he hf
+    exact marshalOne_scalar A hA hpos lall le _ fd t pv k k' off bs fuel hr he hf
   | .double b, fd, t, pv, k, k', off, bs, fuel, hr, he, hf => by
     simp only [Rep] at hr; simp only [Val.depth] at hf
-    exact marshalOne_scalar lall le _ fd t pv k k' off bs fuel hr he hf
+    exact marshalOne_scalar A hA hpos lall le _ fd t pv k k' off bs fuel hr he hf
   | .str b, fd, t, pv, k, k', off, bs, fuel, hr, he, hf => by
     simp only [Rep] at hr; simp only [Val.depth] at hf
-    exact marshalOne_scalar lall le _ fd t pv k k' off bs fuel hr he hf
+    exact marshalOne_scalar A hA hpos lall le _ fd t pv k k' off bs fuel hr he hf
   | .variant t' v', fd, t, pv, k, k', off, bs, fuel, hr, he, hf => by
     simp only [Rep] at hr
     obtain ⟨rfl, hsig, hrep, rfl⟩ := hr
@@ -116,15 +116,15 @@ theorem marshalOne_spec (lall : List PyVal) (le : Bool) :
     simp only [Option.some.injEq] at he; subst he
     simp only [Val.depth] at hf
     obtain ⟨f, rfl⟩ : ∃ f, fuel = f + 1 := ⟨fuel - 1, by omega⟩
-    have ih := marshalOne_spec lall le v' false t' pv _ _ _ body f hrep hbody (by omega)
+    have ih := marshalOne_spec A hA hpos lall le v' false t' pv _ _ _ body f hrep hbody (by omega)
     have hok' := hok
     simp only [Spec.variantTypeOk, Bool.and_eq_true, decide_eq_true_eq] at hok'
-    have hpos := alignTable_pos t'
+    have hpos' := hpos t'
     simp only [List.length_append, encUInt_length, Spec.sigBytes_length, List.length_cons, List.length_nil] at ih hbody ⊢
     simp only [Ty.render, marshalOne, List.head?_cons, disp_v, hsig, mSignature_render le t' _ hok'.2,
-      head?_render, padLenOf_code]
+      head?_render, hA]
     have e1 : off + (2 + t'.render.length) = off + (1 + t'.render.length + (0 + 1)) := by omega
-    rw [e1, marshalTop_single _ t' pv _ none (padLen_after _ _ hpos)]
+    rw [e1, marshalTop_single A hA hpos _ t' pv _ none (padLen_after _ _ hpos')]
     simp only [fdsArg] at ih
     simp only [Bool.false_eq_true, if_false] at ih
     rw [ih]
@@ -141,10 +141,10 @@ theorem marshalOne_spec (lall : List PyVal) (le : Bool) :
     simp only [Option.some.injEq] at he; subst he
     simp only [Val.depth] at hf
     obtain ⟨f, rfl⟩ : ∃ f, fuel = f + 1 := ⟨fuel - 1, by omega⟩
-    have ih := marshalElems_spec lall le vs fd el items k k' _ body f 0 hrep hbody (by omega)
+    have ih := marshalElems_spec A hA hpos lall le vs fd el items k k' _ body f 0 hrep hbody (by omega)
     have hlt : (body.length : Int) < ((256 ^ 4 : Nat) : Int) := by
       unfold Spec.maxArray at hmax; omega
-    simp only [Ty.render, marshalOne, List.head?_cons, disp_a, List.tail, head?_render, padLenOf_code, hitems, ih,
+    simp only [Ty.render, marshalOne, List.head?_cons, disp_a, List.tail, head?_render, hA, hitems, ih,
       fmt_array, Nat.zero_add]
     rw [pack_uint 'I' le 4 (.int .plain (body.length : Int)) _ rfl rfl (by omega) hlt]
     simp only [Int.toNat_natCast, zeros_length, List.length_append, encUInt_length]
@@ -154,7 +154,7 @@ theorem marshalOne_spec (lall : List PyVal) (le : Bool) :
     simp only [Spec.encode] at he
     simp only [Val.depth] at hf
     obtain ⟨f, rfl⟩ : ∃ f, fuel = f + 1 := ⟨fuel - 1, by omega⟩
-    have ih := marshalSeq_spec lall le vs fd fs items k k' off bs f hrep he (by omega)
+    have ih := marshalSeq_spec A hA hpos lall le vs fd fs items k k' off bs f hrep he (by omega)
     have hd : marshalOne le (f + 1) (Ty.struct fs).render pv off (fdsArg fd lall k) =
         marshalTop (marshalOne le f) (Ty.struct fs).render.tail.dropLast pv off (fdsArg fd lall k) := by
       simp only [Ty.render, marshalOne, List.head?_cons, disp_struct]
@@ -173,8 +173,8 @@ theorem marshalOne_spec (lall : List PyVal) (le : Bool) :
     simp only [Option.some.injEq] at he; subst he
     simp only [Val.depth] at hf
     obtain ⟨f, rfl⟩ : ∃ f, fuel = f + 1 := ⟨fuel - 1, by omega⟩
-    have iha := marshalOne_spec lall le a fd kt x k k1 _ kb f hra hkb (by omega)
-    have ihb := marshalOne_spec lall le b fd vt y k1 k' _ vb f hrb hvb (by omega)
+    have iha := marshalOne_spec A hA hpos lall le a fd kt x k k1 _ kb f hra hkb (by omega)
+    have ihb := marshalOne_spec A hA hpos lall le b fd vt y k1 k' _ vb f hrb hvb (by omega)
     have hd : marshalOne le (f + 1) (Ty.dict kt vt).render pv off (fdsArg fd lall k) =
         marshalTop (marshalOne le f) (Ty.dict kt vt).render.tail.dropLast pv off (fdsArg fd lall k) := by
       simp only [Ty.render, marshalOne, List.head?_cons, disp_dict]
@@ -182,14 +182,14 @@ theorem marshalOne_spec (lall : List PyVal) (le : Bool) :
     unfold marshalTop
     have hlp := lazyPieces_renderAll [kt, vt]
     simp only [List.map_cons, List.map_nil] at hlp
-    simp only [hitems, hlp, marshalSeq, head?_render, padLenOf_code, iha, ihb]
+    simp only [hitems, hlp, marshalSeq, head?_render, hA, iha, ihb]
     simp only [Except.ok.injEq, Prod.mk.injEq, and_true, List.append_nil, List.length_append, zeros_length,
       List.append_assoc]
     omega
-theorem marshalElems_spec (lall : List PyVal) (le : Bool) :
+theorem marshalElems_spec (A : AlignTable) (hA : PadOK A) (hpos : A.Pos) (lall : List PyVal) (le : Bool) :
     ∀ (vs : List Val) (fd : Bool) (el : Ty) (items : List PyVal) (k k' off : Nat) (body : Bytes) (fuel dl : Nat),
       RepElems lall vs fd el items k k' →
-      Spec.encodeElems Spec.alignTable (endianOf le) el vs off = some body → depthAll vs ≤ fuel →
+      Spec.encodeElems A (endianOf le) el vs off = some body → depthAll vs ≤ fuel →
       marshalElems (marshalOne le fuel el.render) el.code items off dl (fdsArg fd lall k) =
         .ok (off + body.length, dl + body.length, body, fdsArg fd lall k')
   | [], fd, el, items, k, k', off, body, fuel, dl, hr, he, _ => by
@@ -207,16 +207,16 @@ theorem marshalElems_spec (lall : List PyVal) (le : Bool) :
     rename_i r hr'
     simp only [Option.some.injEq] at he; subst he
     simp only [depthAll] at hf
-    have ih1 := marshalOne_spec lall le v fd el x k k1 _ b fuel hrv hb (by omega)
-    have ih2 := marshalElems_spec lall le vs fd el xs k1 k' _ r fuel
-      (dl + padLen (Spec.alignTable el.code) off + b.length) hrs hr' (by omega)
-    simp only [marshalElems, padLenOf_code, ih1, ih2]
+    have ih1 := marshalOne_spec A hA hpos lall le v fd el x k k1 _ b fuel hrv hb (by omega)
+    have ih2 := marshalElems_spec A hA hpos lall le vs fd el xs k1 k' _ r fuel
+      (dl + padLen (A el.code) off + b.length) hrs hr' (by omega)
+    simp only [marshalElems, hA, ih1, ih2]
     simp only [Except.ok.injEq, Prod.mk.injEq, and_true, List.length_append, zeros_length]
     omega
-theorem marshalSeq_spec (lall : List PyVal) (le : Bool) :
+theorem marshalSeq_spec (A : AlignTable) (hA : PadOK A) (hpos : A.Pos) (lall : List PyVal) (le : Bool) :
     ∀ (vs : List Val) (fd : Bool) (ts : List Ty) (items : List PyVal) (k k' off : Nat) (bs : Bytes) (fuel : Nat),
       RepFields lall vs fd ts items k k' →
-      Spec.encodeFields Spec.alignTable (endianOf le) ts vs off = some bs → depthAll vs ≤ fuel →
+      Spec.encodeFields A (endianOf le) ts vs off = some bs → depthAll vs ≤ fuel →
       marshalSeq (marshalOne le fuel) (ts.map Ty.render) none items off (fdsArg fd lall k) =
         .ok (off + bs.length, bs, fdsArg fd lall k')
   | [], fd, ts, items, k, k', off, bs, fuel, hr, he, _ => by
@@ -234,9 +234,9 @@ theorem marshalSeq_spec (lall : List PyVal) (le : Bool) :
     rename_i r hr'
     simp only [Option.some.injEq] at he; subst he
     simp only [depthAll] at hf
-    have ih1 := marshalOne_spec lall le v fd t x k k1 _ b fuel hrv hb (by omega)
-    have ih2 := marshalSeq_spec lall le vs fd ts' xs k1 k' _ r fuel hrs hr' (by omega)
-    simp only [List.map_cons, marshalSeq, head?_render, padLenOf_code, ih1, ih2]
+    have ih1 := marshalOne_spec A hA hpos lall le v fd t x k k1 _ b fuel hrv hb (by omega)
+    have ih2 := marshalSeq_spec A hA hpos lall le vs fd ts' xs k1 k' _ r fuel hrs hr' (by omega)
+    simp only [List.map_cons, marshalSeq, head?_render, hA, ih1, ih2]
     simp only [Except.ok.injEq, Prod.mk.injEq, and_true, List.length_append, zeros_length]
     omega
 end
